@@ -319,10 +319,20 @@ class Pool:
     def _crash_result(self, w, plan):
         w['p'].join(timeout=5)
         code = w['p'].exitcode
+        sig = {'oracle': 'process_crash', 'exitcode': code}
+        try:
+            mod = importlib.import_module('dst.props.' + self.prop.lower())
+            cs = getattr(mod, 'crash_sig', None)
+            if cs is not None:
+                if plan.get('stub') and hasattr(mod, 'elaborate'):
+                    plan = mod.elaborate(plan)
+                sig.update(cs(plan))
+        except Exception:
+            pass
         return {'status': 'crash', 'exitcode': code, 'plan': plan, 'wall': 0.0,
-                'violations': [{'oracle': 'process_crash',
-                                'sig': {'oracle': 'process_crash', 'exitcode': code},
-                                'detail': 'worker process died with exit code %r' % code}]}
+                'violations': [{'oracle': 'process_crash', 'sig': sig,
+                                'detail': 'worker process died with exit code %r (signal %s) while executing this plan' %
+                                (code, -code if isinstance(code, int) and code < 0 else 'n/a')}]}
 
     def _replace(self, w):
         try:
